@@ -1,12 +1,15 @@
 #!/bin/sh
 # Runs every stored seeded change (and hand-written mutant) against the quick
-# tier of its property; one line per patch.
+# tier of its property; one line per patch.  KEEP=1 stores each failing input
+# under regress/<ID>/; ONLY=<regex> restricts the patches.
 cd "$(dirname "$0")/.."
 for d in seeded/*/; do
   id=$(basename "$d" | cut -d- -f1)
-  [ -f "$d/patch.diff" ] && tools/try_patch.sh "$d/patch.diff" "$id"
+  [ -n "${ONLY:-}" ] && ! echo "$d" | grep -q -E "$ONLY" && continue
+  [ -f "$d/patch.diff" ] && KEEP_REPLAY=${KEEP:+seed-$(basename "$d")} tools/try_patch.sh "$d/patch.diff" "$id"
 done
 for p in mutants/*/*.patch; do
   id=$(basename "$(dirname "$p")")
-  tools/try_patch.sh "$p" "$id"
+  [ -n "${ONLY:-}" ] && ! echo "$p" | grep -q -E "$ONLY" && continue
+  KEEP_REPLAY=${KEEP:+mutant-$(basename "$p" .patch)} tools/try_patch.sh "$p" "$id"
 done
